@@ -22,7 +22,7 @@ Proof. exact mid_recover. Qed.
 Print Assumptions C05_recovery.
 
 (* Every operation, stopped after ANY number n of its effects: reopening succeeds ... *)
-Theorem C05_reopen_succeeds : forall key_of p, 0 < p_maxb p -> forall s o n, Good s -> op_ok key_of p s o ->
+Theorem C05_reopen_succeeds : forall key_of p, 0 < p_maxb p -> forall s o n, Good s -> op_ok s o ->
   exists s', crash key_of fixed p s o n = Some s'.
 Proof. exact crash_recovers. Qed.
 Print Assumptions C05_reopen_succeeds.
@@ -31,7 +31,7 @@ Print Assumptions C05_reopen_succeeds.
    there or was being appended (no phantom), and everything that was there except what the
    operation was removing (a truncation: offsets >= its argument; a clean: records outside the
    segments it leaves). *)
-Theorem C05_crash_safe : forall key_of p, 0 < p_maxb p -> forall s o n s', Good s -> op_ok key_of p s o ->
+Theorem C05_crash_safe : forall key_of p, 0 < p_maxb p -> forall s o n s', Good s -> op_ok s o ->
   crash key_of fixed p s o n = Some s' ->
   Good s' /\ s_hw s' <= s_hw s /\
   (forall x, In x (content (s_disk s')) -> In x (content (s_disk s)) \/ In x (incoming s o)) /\
@@ -52,7 +52,7 @@ Proof. intros s G. split; [apply (g_csorted _ G)|split; [apply (g_cbound _ G)|ap
 Print Assumptions C05_epoch_history_matches.
 
 (* Operations that complete keep the log good (so the next crash is covered as well). *)
-Theorem C05_completed_operation : forall key_of p, 0 < p_maxb p -> forall s o, Good s -> op_ok key_of p s o ->
+Theorem C05_completed_operation : forall key_of p, 0 < p_maxb p -> forall s o, Good s -> op_ok s o ->
   exists s', exec key_of fixed p s o = Some s' /\ Good s'.
 Proof. exact exec_good. Qed.
 Print Assumptions C05_completed_operation.
